@@ -1469,6 +1469,18 @@ class DynGraph(nx.Graph):
         # @todo: implement (page 8, Latapy)
         pass
 
+    def clear(self):
+        """Remove all nodes and interactions from the graph, together with its snapshots and interaction stream."""
+        nx.Graph.clear(self)
+        self.time_to_edge = defaultdict(int)
+        self.snapshots = {}
+
+    def clear_edges(self):
+        """Remove all interactions from the graph, together with its snapshots and interaction stream."""
+        nx.Graph.clear_edges(self)
+        self.time_to_edge = defaultdict(int)
+        self.snapshots = {}
+
     @not_implemented()
     def remove_edge(self, u, v):
         pass
